@@ -101,6 +101,8 @@ func (enc *encoder) encodeAny(anyField j5reflect.AnyField) error {
 			return err
 		}
 		jsonData = innerBytes
+	} else {
+		return fmt.Errorf("any of type %q has neither j5_json nor proto content", val.TypeName)
 	}
 
 	enc.openObject()
